@@ -136,7 +136,8 @@ def gen_arrays(rng, count):
                 r = rng.random(); i = rng.choice([0, cap - 1, rng.randrange(cap)])
                 if r < 0.5: ops.append("set %d %d" % (i, rng.randint(-1000, 1000)))
                 elif r < 0.75: ops.append("get %d" % i)
-                elif r < 0.9: ops.append("fill %d" % rng.randint(-5, 5))
+                elif r < 0.85: ops.append("%s %d" % (rng.choice(["fill", "ctorfill"]), rng.choice([0, 0, rng.randint(-5, 5)])))
+                elif r < 0.93: ops.append("isempty")
                 else: ops.append("clear")
             lines.append("sa %d : %s" % (cap, " ; ".join(ops)))
         else:
